@@ -13,6 +13,11 @@
 (*           2^53: limits and values are positions [a, d] = anchor a + offset d  *)
 (*           (anchors -2^64 -2^63 0 2^53 10^18 2^63 2^64 = a in -2..4; |d| <=    *)
 (*           2^20 near an anchor, < 2^26 at anchor 0, d = +-FAR "far from it")   *)
+(*           [k |-> "gscaled", sid, min, max]  a scaled type with an arbitrary  *)
+(*           (non-dyadic) scale: sid names the exact float (table in            *)
+(*           harness/dt_common.py), min / max are GRID INDICES; physical values  *)
+(*           at such a position are "gnum": q = position in quarter grid steps   *)
+(*           (4n = the float n*scale), ix = strictly between q and q+1.          *)
 (*           [k |-> "bool"]  [k |-> "enum", mem |-> << [n, v] ... >>]            *)
 (*           [k |-> "string", minc, maxc, utf8]  [k |-> "blob", minb, maxb]      *)
 (*           [k |-> "array", el, minlen, maxlen]  [k |-> "tuple", els]           *)
@@ -43,6 +48,7 @@ I(n) == [j |-> "int", n |-> n]
 N(t) == [j |-> "num", t |-> t, ix |-> FALSE, w |-> (t % U = 0)]
 NX(t, w) == [j |-> "num", t |-> t, ix |-> TRUE, w |-> w]
 BI(a, d) == [j |-> "bint", a |-> a, d |-> d]   \* the python int anchor(a) + d, beyond +-HUGE
+G(q, ix) == [j |-> "gnum", q |-> q, ix |-> ix, src |-> "num"]    \* physical value of a gscaled position, in quarter grid steps
 Sp(s) == [j |-> "special", s |-> s]        \* "nan" "pinf" "ninf"
 FMax(s) == [j |-> "fmax", s |-> s]         \* +-float_info.max, s in {1,-1}
 \* strings: cls in {"ascii","esc","utf8","nul"} (esc = ASCII with quote/backslash/newline), len = characters, blen = bytes when the
@@ -196,6 +202,18 @@ VScaled(dt, c, path) ==
            [] c.j = "special" -> AnyErr
            [] OTHER -> {WT}
 
+(* gscaled: the same rule in grid units: a scaled type of scale 4 over quarter grid steps; the oracle  *)
+(* never divides by the (float) scale: integer limits, grid points and half-grid points are exact     *)
+G4(d) == [k |-> "scaled", scale |-> 4, min |-> 4 * d.min, max |-> 4 * d.max]
+AsTick(c) == [j |-> "num", t |-> c.q, ix |-> c.ix, w |-> FALSE]
+GMap(os) == {IF o.ok THEN Ok(G(o.v.t, o.v.ix)) ELSE o : o \in os}
+VGScaled(d, c, path) ==
+    IF path = "wire" THEN GMap(VScaled(G4(d), c, "wire"))       \* wire integer n = grid index
+    ELSE CASE c.j = "gnum" -> (IF c.src = "num" THEN {} ELSE {WT}) \cup GMap(ScaledPhys(G4(d), AsTick(c), path))
+           [] c.j \in {"int", "num", "bint", "bool", "member", "fmax"} -> AnyErr    \* not grounded in grid units: never offered
+           [] c.j = "special" -> AnyErr
+           [] OTHER -> {WT}
+
 (* bool *)
 BoolOf(n) == IF n \in {0, 1} THEN {Ok(B(n = 1)), WT} ELSE AnyErr
 VBool(dt, c, path) ==
@@ -262,6 +280,7 @@ Val(dt, c0, prev, path) ==
       [] dt.k = "int" -> VInt(dt, c, path)
       [] dt.k = "bigint" -> VBigInt(dt, c, path)
       [] dt.k = "scaled" -> VScaled(dt, c, path)
+      [] dt.k = "gscaled" -> VGScaled(dt, c, path)
       [] dt.k = "bool" -> VBool(dt, c, path)
       [] dt.k = "enum" -> VEnum(dt, c, path)
       [] dt.k = "string" -> VString(dt, c, path)
@@ -310,6 +329,9 @@ InSet(dt, v, lim) ==
       [] dt.k = "scaled" -> /\ v.j = "num"
                             /\ \/ ~lim /\ v.ix /\ Abs(v.t) >= HUGE
                                \/ ~v.ix /\ v.t % dt.scale = 0 /\ (~lim \/ (dt.min <= v.t /\ v.t <= dt.max))
+      [] dt.k = "gscaled" -> /\ v.j = "gnum"
+                             /\ \/ ~lim /\ v.ix /\ Abs(v.q) >= HUGE
+                                \/ ~v.ix /\ v.q % 4 = 0 /\ (~lim \/ (4 * dt.min <= v.q /\ v.q <= 4 * dt.max))
       [] dt.k = "bool" -> v.j = "bool"
       [] dt.k = "enum" -> v.j = "member" /\ [n |-> v.name, v |-> v.n] \in Rng(dt.mem)
       [] dt.k = "string" -> v.j = "str" /\ StrClsOK(dt, v) /\ StrLenOK(dt, v)
@@ -349,6 +371,11 @@ Denotes(dt, c0, v, prev, path) ==
            THEN \E s \in NumSrc(c) : Whole(s) /\ Abs(AsInt(s).n) < WIREBIG /\ v.j = "num" /\ ~v.ix
                                      /\ Abs(v.t - AsInt(s).n * dt.scale) <= dt.scale
            ELSE \E s \in NumSrc(c) : NumClose(s, v, 8 * dt.scale)
+      [] dt.k = "gscaled" ->
+           /\ v.j = "gnum"
+           /\ IF path = "wire"
+              THEN \E s \in NumSrc(c) : Whole(s) /\ Abs(AsInt(s).n) < WIREBIG /\ ~v.ix /\ Abs(v.q - 4 * AsInt(s).n) <= 4
+              ELSE c.j = "gnum" /\ NumClose(AsTick(c), AsTick(v), 32)
       [] dt.k = "bool" -> /\ v.j = "bool"
                           /\ \/ v = c
                              \/ \E s \in NumSrc(c) : ~Big(s) /\ ~Inexact(s) /\ T(s) = U * B2I(v.b)
@@ -417,6 +444,13 @@ OwnScaled(dt) ==
                dt.max - s, dt.max - h, dt.max, dt.max + h, dt.max + s - 1, dt.max + s, dt.max + s + 1} IN
     {I(n) : n \in ws} \cup {N(n * U) : n \in {a, b + 1}} \cup {N(a * U + 8)}
     \cup TickForms(ps) \cup {NX(dt.min - s, FALSE), NX(dt.min - s - 1, FALSE), NX(dt.max, FALSE)}
+OwnGScaled(dt) ==
+    LET a == dt.min
+        b == dt.max IN
+    {I(n) : n \in {a - 2, a - 1, a, a + 1, b - 1, b, b + 1, b + 2}} \cup {N(n * U) : n \in {a, b + 1}} \cup {N(a * U + 8)}
+    \cup {G(q, FALSE) : q \in {4 * a - 5, 4 * a - 4, 4 * a - 3, 4 * a - 2, 4 * a, 4 * a + 1, 4 * a + 2, 4 * a + 4,
+                                4 * b - 4, 4 * b - 2, 4 * b, 4 * b + 2, 4 * b + 3, 4 * b + 4, 4 * b + 5}}     \* grid, quarter and half-grid points around both limits
+    \cup {G(4 * a - 4, TRUE), G(4 * a - 5, TRUE), G(4 * b, TRUE), G(4 * b + 3, TRUE)}
 OwnEnum(dt) ==
     UNION {{I(m.v), Lit(m.n), Mem(m.v, m.n), N(m.v * U), N(m.v * U + 8)} : m \in Rng(dt.mem)}
     \cup {I(99), Lit("zz"), Mem(99, "zz"), Mem(dt.mem[1].v, "zz")}
@@ -439,6 +473,7 @@ Good(dt) ==
       [] dt.k = "int" -> {I(ZeroOr(dt.min, dt.max))}
       [] dt.k = "bigint" -> {CI(dt.max.a, dt.max.d)}
       [] dt.k = "scaled" -> {I(0)}                       \* catalogue types contain 0
+      [] dt.k = "gscaled" -> {I(dt.max), G(4 * dt.max, FALSE)}      \* grid index on the wire, physical value from python
       [] dt.k = "bool" -> {B(TRUE)}
       [] dt.k = "enum" -> {I(dt.mem[1].v)}
       [] dt.k = "string" -> {Plain(Max2(dt.minc, 1))}
@@ -454,6 +489,7 @@ IVal(dt) ==
       [] dt.k = "int" -> I(dt.max)
       [] dt.k = "bigint" -> BI(dt.min.a, dt.min.d)
       [] dt.k = "scaled" -> N(dt.max)
+      [] dt.k = "gscaled" -> G(4 * dt.min, FALSE)
       [] dt.k = "bool" -> B(FALSE)
       [] dt.k = "enum" -> Mem(dt.mem[Len(dt.mem)].v, dt.mem[Len(dt.mem)].n)
       [] dt.k = "string" -> Plain(Max2(dt.minc, 1))
@@ -467,6 +503,7 @@ Cands(dt) == Common \cup
       [] dt.k = "int" -> OwnInt(dt)
       [] dt.k = "bigint" -> OwnBig(dt)
       [] dt.k = "scaled" -> OwnScaled(dt)
+      [] dt.k = "gscaled" -> OwnGScaled(dt)
       [] dt.k = "bool" -> {}
       [] dt.k = "enum" -> OwnEnum(dt)
       [] dt.k = "string" -> OwnString(dt)
@@ -509,14 +546,29 @@ Prevs(dt, c) ==
            {None, full, O(SelectSeq(full.kv, LAMBDA e : e.k \notin Rng(dt.opt)))}
       [] OTHER -> {None, IVal(dt)}
 
-PathsFor(c, p) == IF p # None THEN (IF HasInternal(c) THEN {"write"} ELSE {"wire", "write"})
-                  ELSE (IF HasInternal(c) THEN {"write", "call"} ELSE {"wire", "write", "call"})
-Cases(dt) == UNION {{[c |-> c, p |-> p, path |-> path] : path \in PathsFor(c, p)} :
+(* a gnum is a python float (never on the wire); a plain number offered from python to a gscaled position *)
+(* would have to be divided by the float scale: such cases are left to the random driver, whose alpha     *)
+(* classifies them in grid units with exact rational arithmetic                                           *)
+RECURSIVE HasGnum(_), Ungrounded(_, _)
+HasGnum(c) == CASE c.j = "gnum" -> TRUE
+                [] c.j = "list" -> \E i \in DOMAIN c.xs : HasGnum(c.xs[i])
+                [] c.j = "obj" -> \E i \in DOMAIN c.kv : HasGnum(c.kv[i].v)
+                [] OTHER -> FALSE
+Ungrounded(d, c) ==
+    CASE d.k = "gscaled" -> c.j \in {"int", "num", "bint", "bool", "member", "fmax"}
+      [] d.k = "array" /\ c.j = "list" -> \E i \in DOMAIN c.xs : Ungrounded(d.el, c.xs[i])
+      [] d.k = "tuple" /\ c.j = "list" -> \E i \in 1 .. Min2(Len(d.els), Len(c.xs)) : Ungrounded(d.els[i], c.xs[i])
+      [] d.k = "struct" /\ c.j = "obj" -> \E i \in DOMAIN c.kv : c.kv[i].k \in Names(d) /\ Ungrounded(TypeOf(d, c.kv[i].k), c.kv[i].v)
+      [] OTHER -> FALSE
+PathsFor(d, c, p) ==
+    (IF HasInternal(c) \/ HasGnum(c) THEN {} ELSE {"wire"})
+    \cup (IF Ungrounded(d, c) THEN {} ELSE (IF p # None THEN {"write"} ELSE {"write", "call"}))
+Cases(dt) == UNION {{[c |-> c, p |-> p, path |-> path] : path \in PathsFor(dt, c, p)} :
                       <<c, p>> \in UNION {{<<x, q>> : q \in Prevs(dt, x)} : x \in Cands(dt)}}
 
 (* ------------------------------------------------------ C02: the wire encoding *)
 WireKind(d) == CASE d.k = "double" -> "num"
-                 [] d.k \in {"int", "bigint", "scaled", "enum"} -> "int"
+                 [] d.k \in {"int", "bigint", "scaled", "gscaled", "enum"} -> "int"
                  [] d.k = "bool" -> "bool"
                  [] d.k = "string" -> "str"
                  [] d.k = "blob" -> "b64str"
@@ -528,6 +580,7 @@ RECURSIVE Export(_, _), KindOK(_, _), VS(_), EqModFloat(_, _, _)
 Export(d, v) ==
     CASE d.k \in {"double", "int", "bigint", "bool", "string"} -> v
       [] d.k = "scaled" -> I(v.t \div d.scale)
+      [] d.k = "gscaled" -> I(v.q \div 4)
       [] d.k = "enum" -> I(v.n)
       [] d.k = "blob" -> B64(v.len)
       [] d.k = "array" -> L([i \in 1 .. Len(v.xs) |-> Export(d.el, v.xs[i])])
@@ -563,6 +616,7 @@ VS(d) ==
       [] d.k = "bigint" -> {BI(p.a, p.d) : p \in {q \in {d.min, P(d.min.a, d.min.d + 1), P(d.max.a, d.max.d - 1), d.max,
                                                             P(1, 1), P(2, 1), P(3, -1), P(0, FAR)} : PLE(d.min, q) /\ PLE(q, d.max)}}
       [] d.k = "scaled" -> {N(t) : t \in {m \in {d.min, d.min + d.scale, 0, d.max - d.scale, d.max} : d.min <= m /\ m <= d.max}}
+      [] d.k = "gscaled" -> {G(4 * n, FALSE) : n \in {m \in {d.min, d.min + 1, 0, 1, 1000, d.max - 1, d.max} : d.min <= m /\ m <= d.max}}
       [] d.k = "bool" -> {B(TRUE), B(FALSE)}
       [] d.k = "enum" -> {Mem(m.v, m.n) : m \in Rng(d.mem)}
       [] d.k = "string" ->
@@ -588,7 +642,7 @@ VS(d) ==
 
 (* equal at every leaf that is not a float (double, scaled) *)
 EqModFloat(d, a, b) ==
-    CASE d.k \in {"double", "scaled"} -> TRUE
+    CASE d.k \in {"double", "scaled", "gscaled"} -> TRUE
       [] d.k \in {"array", "tuple"} ->
            /\ b.j = "list" /\ Len(b.xs) = Len(a.xs)
            /\ \A i \in 1 .. Len(a.xs) : EqModFloat(IF d.k = "array" THEN d.el ELSE d.els[i], a.xs[i], b.xs[i])
@@ -598,7 +652,7 @@ EqModFloat(d, a, b) ==
       [] OTHER -> a = b
 
 RECURSIVE HasFloat(_)
-HasFloat(d) == CASE d.k \in {"double", "scaled"} -> TRUE
+HasFloat(d) == CASE d.k \in {"double", "scaled", "gscaled"} -> TRUE
                  [] d.k = "array" -> HasFloat(d.el)
                  [] d.k = "tuple" -> \E i \in 1 .. Len(d.els) : HasFloat(d.els[i])
                  [] d.k = "struct" -> \E i \in 1 .. Len(d.mem) : HasFloat(d.mem[i].t)
@@ -638,7 +692,12 @@ Rebuild(i) ==
       [] ty = "int" -> IF ValOf(i, "min").j = "bint" \/ ValOf(i, "max").j = "bint"
                        THEN [k |-> "bigint", min |-> PosOf(ValOf(i, "min")), max |-> PosOf(ValOf(i, "max"))]   \* limits kept exactly
                        ELSE [k |-> "int", min |-> GetI(i, "min", 0), max |-> GetI(i, "max", 0)]
-      [] ty = "scaled" -> LET sc == GetT(i, "scale", 1) IN
+      [] ty = "scaled" /\ ValOf(i, "scale").j = "gscale" ->      \* a scale of the table: exactly that float; limits are the integers given
+                          [k |-> "gscaled", sid |-> ValOf(i, "scale").sid, min |-> GetI(i, "min", 0), max |-> GetI(i, "max", 0),
+                           abs |-> GetT(i, "absolute_resolution", -1),
+                           rel |-> IF HasKey(i, "relative_resolution") THEN RelOf(ValOf(i, "relative_resolution")) ELSE -1,
+                           unit |-> GetS(i, "unit", ""), fmt |-> GetS(i, "fmtstr", "%g")]
+      [] ty = "scaled" /\ ValOf(i, "scale").j # "gscale" -> LET sc == GetT(i, "scale", 1) IN
                           [k |-> "scaled", scale |-> sc, min |-> GetI(i, "min", 0) * sc, max |-> GetI(i, "max", 0) * sc,
                            abs |-> GetT(i, "absolute_resolution", sc),
                            rel |-> IF HasKey(i, "relative_resolution") THEN RelOf(ValOf(i, "relative_resolution")) ELSE -1,
@@ -677,6 +736,11 @@ Describe(d) ==
              \o <<KV("max", I(d.max \div d.scale)), KV("min", I(d.min \div d.scale))>>
              \o OptKV(d.rel # -1, "relative_resolution", N(2 * d.rel))
              \o <<KV("scale", N(d.scale)), KV("type", Txt("scaled"))>> \o OptKV(d.unit # "", "unit", Txt(d.unit)))
+      [] d.k = "gscaled" ->
+           O(OptKV(d.abs # -1, "absolute_resolution", N(d.abs)) \o OptKV(d.fmt # "%g", "fmtstr", Txt(d.fmt))
+             \o <<KV("max", I(d.max)), KV("min", I(d.min))>>
+             \o OptKV(d.rel # -1, "relative_resolution", N(2 * d.rel))
+             \o <<KV("scale", [j |-> "gscale", sid |-> d.sid]), KV("type", Txt("scaled"))>> \o OptKV(d.unit # "", "unit", Txt(d.unit)))
       [] d.k = "bool" -> O(<<KV("type", Txt("bool"))>>)
       [] d.k = "enum" -> O(<<KV("members", O([x \in 1 .. Len(d.mem) |-> KV(d.mem[x].n, I(d.mem[x].v))])), KV("type", Txt("enum"))>>)
       [] d.k = "string" -> O(OptKV(d.utf8, "isUTF8", B(TRUE)) \o OptKV(d.maxc # NoLim, "maxchars", I(d.maxc))
@@ -697,6 +761,8 @@ Deco(d, u, f, dflt) ==
                             unit |-> u, fmt |-> f]
       [] d.k = "scaled" -> [k |-> "scaled", scale |-> d.scale, min |-> d.min, max |-> d.max,
                             abs |-> IF dflt THEN d.scale ELSE 0, rel |-> IF dflt THEN -1 ELSE 1, unit |-> u, fmt |-> f]
+      [] d.k = "gscaled" -> [k |-> "gscaled", sid |-> d.sid, min |-> d.min, max |-> d.max,
+                             abs |-> IF dflt THEN -1 ELSE 0, rel |-> IF dflt THEN -1 ELSE 1, unit |-> u, fmt |-> f]
       [] d.k = "array" -> [d EXCEPT !.el = Deco(d.el, u, f, dflt)]
       [] d.k = "tuple" -> [d EXCEPT !.els = [x \in 1 .. Len(d.els) |-> Deco(d.els[x], u, f, dflt)]]
       [] d.k = "struct" -> [d EXCEPT !.mem = [x \in 1 .. Len(d.mem) |-> [n |-> d.mem[x].n, t |-> Deco(d.mem[x].t, u, f, dflt)]]]
@@ -742,6 +808,7 @@ Supported(a, b) ==
              [] b.k = "bool" -> 0 <= a.min /\ a.max <= 1
              [] OTHER -> FALSE
       [] a.k = "bool" -> b.k = "bool"
+      [] a.k = "gscaled" -> b.k = "gscaled" /\ b.sid = a.sid /\ b.min <= a.min /\ a.max <= b.max
       [] a.k = "bigint" -> b.k = "bigint" /\ PLE(b.min, a.min) /\ PLE(a.max, b.max)
       [] a.k = "enum" -> b.k = "enum" /\ \A m \in Rng(a.mem) : ByVal(b, m.v) # {}
       [] a.k = "string" -> /\ b.k = "string" /\ b.minc <= a.minc /\ (a.utf8 => b.utf8)
@@ -754,7 +821,21 @@ Supported(a, b) ==
                            /\ (Rng(a.opt) \cap Names(b)) \subseteq Rng(b.opt)
                            /\ \A x \in 1 .. Len(a.mem) : Supported(a.mem[x].t, TypeOf(b, a.mem[x].n))
 (* allowed verdicts of a.compatible(b): TRUE = passes *)
-AllowedPass(a, b) == IF ~Subset(a, b) THEN {FALSE} ELSE IF Supported(a, b) /\ SubsetSure(a, b) THEN {TRUE} ELSE {TRUE, FALSE}
+(* a gscaled type against another kind or another scale: the model cannot relate grid units, verdict free *)
+RECURSIVE HasGS(_), GClash(_, _)
+HasGS(d) == CASE d.k = "gscaled" -> TRUE
+              [] d.k = "array" -> HasGS(d.el)
+              [] d.k = "tuple" -> \E i \in 1 .. Len(d.els) : HasGS(d.els[i])
+              [] d.k = "struct" -> \E i \in 1 .. Len(d.mem) : HasGS(d.mem[i].t)
+              [] OTHER -> FALSE
+GClash(a, b) ==
+    CASE a.k = "gscaled" /\ b.k = "gscaled" -> a.sid # b.sid
+      [] a.k = "array" /\ b.k = "array" -> GClash(a.el, b.el)
+      [] a.k = "tuple" /\ b.k = "tuple" /\ Len(a.els) = Len(b.els) -> \E i \in 1 .. Len(a.els) : GClash(a.els[i], b.els[i])
+      [] a.k = "struct" /\ b.k = "struct" /\ Names(a) = Names(b) ->
+           \E i \in 1 .. Len(a.mem) : GClash(a.mem[i].t, TypeOf(b, a.mem[i].n))
+      [] OTHER -> HasGS(a) \/ HasGS(b)
+AllowedPass(a, b) == IF GClash(a, b) THEN {TRUE, FALSE} ELSE IF ~Subset(a, b) THEN {FALSE} ELSE IF Supported(a, b) /\ SubsetSure(a, b) THEN {TRUE} ELSE {TRUE, FALSE}
 
 (* --------------------------------------------------------------- type catalogue *)
 Dbl(lo, hi, a, r) == [k |-> "double", min |-> lo, max |-> hi, abs |-> a, rel |-> r]
@@ -762,6 +843,7 @@ IntT(lo, hi) == [k |-> "int", min |-> lo, max |-> hi]
 Scl(s, lo, hi) == [k |-> "scaled", scale |-> s, min |-> lo, max |-> hi]
 BoolT == [k |-> "bool"]
 BigT(lo, hi) == [k |-> "bigint", min |-> lo, max |-> hi]
+GScl(sid, lo, hi) == [k |-> "gscaled", sid |-> sid, min |-> lo, max |-> hi]
 Enm(mem) == [k |-> "enum", mem |-> mem]
 Strg(lo, hi, u) == [k |-> "string", minc |-> lo, maxc |-> hi, utf8 |-> u]
 Blob(lo, hi) == [k |-> "blob", minb |-> lo, maxb |-> hi]
@@ -775,10 +857,15 @@ Leaves == <<Dbl(-16, 40, 0, 0), Dbl(0, 160, 4, 0), Dbl(16, 16, 0, 1), Dbl(-NoLim
             Enm(<<[n |-> "a", v |-> 1], [n |-> "b", v |-> 2]>>),
             Enm(<<[n |-> "off", v |-> 0], [n |-> "on", v |-> 1], [n |-> "x", v |-> 5]>>),
             Strg(1, 3, FALSE), Strg(0, NoLim, TRUE), Blob(1, 3), Blob(0, 6),
-            BigT(P(0, 0), P(4, -1)), BigT(P(-1, 0), P(3, -1)), BigT(P(1, 1), P(2, 1))>>     \* UInt64, Int64, 2^53+1 .. 10^18+1
+            BigT(P(0, 0), P(4, -1)), BigT(P(-1, 0), P(3, -1)), BigT(P(1, 1), P(2, 1)),      \* UInt64, Int64, 2^53+1 .. 10^18+1
+            \* scales whose float quotient limit/scale is inexact on either side, negative limits, tiny / huge / periodic scales
+            GScl("0.1", 3, 7), GScl("0.1", -7, -3), GScl("0.2", -3, 7), GScl("0.01", 29, 57), GScl("0.003", -9, 33),
+            GScl("1/3", -2, 7), GScl("2^-20", 0, 1000000), GScl("1.000001e-3", 0, 1000000), GScl("0.0254/4096", -5, 100000),
+            GScl("7", -3, 9), GScl("1e6", 0, 12)>>
 NL == Len(Leaves)
 Lf(i) == Leaves[((i - 1) % NL) + 1]
-SmallLeaves == <<IntT(-2, 3), Scl(4, 0, 160), BigT(P(1, 1), P(4, -1)), Blob(1, 3), Strg(1, 3, FALSE), Dbl(0, 160, 4, 0),
+SmallLeaves == <<IntT(-2, 3), GScl("0.1", 3, 7), BigT(P(1, 1), P(4, -1)), Blob(1, 3), Scl(4, 0, 160), GScl("1/3", -6, 1000000),
+                 Strg(1, 3, FALSE), Dbl(0, 160, 4, 0),
                  Enm(<<[n |-> "a", v |-> 1], [n |-> "b", v |-> 2]>>)>>
 NS == Len(SmallLeaves)
 Sm(i) == SmallLeaves[((i - 1) % NS) + 1]
@@ -820,6 +907,7 @@ BaseSeq(tier) == CASE tier = "mc" -> Leaves \o SubSeq(Depth1, 1, 2 * NL)
 CLeaves == <<Dbl(0, 160, 0, 0), Dbl(0, 80, 0, 0), Dbl(-16, 160, 4, 0), Dbl(-NoLim, NoLim, 0, 0), Dbl(16, 200, 0, 1),
              IntT(0, 10), IntT(0, 1), IntT(1, 2), IntT(-5, 20), IntT(0, 5),
              Scl(4, 0, 160), Scl(16, 0, 80), Scl(4, -16, 320),
+             GScl("0.1", 3, 7), GScl("0.1", 0, 7), GScl("0.1", 3, 6), GScl("0.2", 3, 7),
              BoolT,
              Enm(<<[n |-> "a", v |-> 1], [n |-> "b", v |-> 2]>>), Enm(<<[n |-> "off", v |-> 0], [n |-> "on", v |-> 1]>>),
              Enm(<<[n |-> "off", v |-> 0], [n |-> "a", v |-> 1], [n |-> "b", v |-> 2], [n |-> "x", v |-> 5]>>),
